@@ -264,8 +264,16 @@ def _run_task(hmod, hname, cfg, tier, seed, t0):
         val["samples"] += 1
         if r["status"] == "ok":
             val["real_ok"] += 1
+        elif r["status"] == "violated":
+            # a sampled valid input fails the property on the installed package: a concrete, replayable violation
+            # (found by the validation sampling, not by a solver verdict - the replay file says so)
+            confirmed.append(dict(candidate="validation-sample on the real package (not a solver verdict)",
+                                  witness=_jsonable(w), failed=r["failed"], tags=r["tags"],
+                                  observed=_jsonable(r.get("observed", {}))))
+            val["sample_violations"] = val.get("sample_violations", 0) + 1
+            continue
         else:
-            val["mismatches"].append(dict(kind="real-package run of a sampled valid input fails an obligation",
+            val["mismatches"].append(dict(kind="real-package run of a sampled valid input could not be evaluated",
                                           witness=_jsonable(w), result=_jsonable(r)))
             continue
         if h.exact_validation:
